@@ -92,6 +92,15 @@ def main():
         ctx.note("escalated: " + "; ".join(problems + ["correspondence %s disagrees" % d[0] for d in ctx.disagreements[:3]]))
         mod.search(ctx)
 
+    # A case the oracle attributed to a known finding, on which model and implementation ALSO disagree, is not
+    # explained by that finding (the model reproduces the recorded defect): report it as a failing input.
+    if tie_broken and not unlisted():
+        bad_cases = {lib.chash(d[1]) for d in ctx.disagreements if d[1] is not None}
+        for v in ctx.violations:
+            if v["footprint"] in open_ids and lib.chash(v["case"]) in bad_cases:
+                v["what"] = "(attributed to %s by its footprint, but model and implementation disagree on this case) %s" % (v["footprint"], v["what"])
+                v["footprint"] = None
+
     rc = 0
     out_lines = []
     seen_fp = set()
